@@ -28,6 +28,11 @@ import (
 //                             harness with go-colorful: the model's scan runs on the same numbers (metric = parameter)
 //   sweep <palspec> <start> <count> <stride>   oracle only: FindColor on NewHexColor((start+k*stride) mod 2^24), k<count
 //   rsweep <palspec> <seed> <count>            oracle only: FindColor on count pseudo-random RGB colours
+//   dsweep <palspec> <k>       oracle only: FindColor on DIRECTED colours derived from the palette itself: the points at 1/4,
+//                             1/2, 3/4 of the RGB segment between a member and each of its k nearest other members
+//                             (k = 0: every pair of members), the 27 colours within +-1 per channel of every member, the
+//                             256 greys (decision boundaries between close members, where a scan that stops early or
+//                             compares with a tolerance goes wrong)
 //                             palspec = xN (PaletteColor(0..N-1), what tscreen.go builds) or a comma list of colour values
 //   cssref <name> <value> / xtermref <i> <value>   consistency of the Go copies of the references with Spec/Color.lean
 //
@@ -383,6 +388,72 @@ type rawImg struct{ r, g, b, a uint32 }
 
 func (c rawImg) RGBA() (uint32, uint32, uint32, uint32) { return c.r, c.g, c.b, c.a }
 
+// directedColours: see the dsweep line in the header comment (deterministic in (palette, k)).
+func directedColours(p *palInfo, k int) []tcell.Color {
+	n := len(p.cols)
+	type rgb struct{ r, g, b int32 }
+	pts := make([]rgb, n)
+	for i, c := range p.cols {
+		pts[i].r, pts[i].g, pts[i].b = c.RGB()
+	}
+	seen := map[int32]bool{}
+	var out []tcell.Color
+	put := func(r, g, b int32) {
+		cl := func(v int32) int32 {
+			if v < 0 {
+				return 0
+			}
+			if v > 255 {
+				return 255
+			}
+			return v
+		}
+		v := cl(r)<<16 | cl(g)<<8 | cl(b)
+		if !seen[v] {
+			seen[v] = true
+			out = append(out, tcell.NewHexColor(v))
+		}
+	}
+	seg := func(a, b rgb) {
+		for t := int32(1); t <= 3; t++ {
+			put((a.r*(4-t)+b.r*t+2)/4, (a.g*(4-t)+b.g*t+2)/4, (a.b*(4-t)+b.b*t+2)/4)
+		}
+	}
+	for i := 0; i < n; i++ {
+		if k <= 0 || k >= n-1 {
+			for j := i + 1; j < n; j++ {
+				seg(pts[i], pts[j])
+			}
+			continue
+		}
+		idx := make([]int, 0, n-1)
+		for j := 0; j < n; j++ {
+			if j != i {
+				idx = append(idx, j)
+			}
+		}
+		sort.SliceStable(idx, func(a, b int) bool {
+			return normNaN(labDist(p.labs[i], p.labs[idx[a]])) < normNaN(labDist(p.labs[i], p.labs[idx[b]]))
+		})
+		for _, j := range idx[:k] {
+			seg(pts[i], pts[j])
+		}
+	}
+	for i := 0; i < n; i++ {
+		for dr := int32(-1); dr <= 1; dr++ {
+			for dg := int32(-1); dg <= 1; dg++ {
+				for db := int32(-1); db <= 1; db++ {
+					put(pts[i].r+dr, pts[i].g+dg, pts[i].b+db)
+				}
+			}
+		}
+	}
+	for v := int32(0); v < 256; v++ {
+		put(v, v, v)
+	}
+	return out
+}
+
 func atoi64(s string) int64 { n, _ := strconv.ParseInt(s, 10, 64); return n }
 
 func colorExec(line string) h.Result {
@@ -425,8 +496,18 @@ func colorExec(line string) h.Result {
 			res.Tags = append(res.Tags, "conv:palette/named")
 		}
 		if !v {
+			// "default, invalid and special colours report not-valid and -1": through every conversion of the statement
 			if hx != -1 || r != -1 || g != -1 || b != -1 {
 				add("invalid-not-minus1", "colour %d is not valid but Hex()=%d RGB()=%d,%d,%d (want -1)", uint64(c), hx, r, g, b)
+			}
+			if tr, tg, tb := tc.RGB(); tc.Valid() || tc.Hex() != -1 || tr != -1 || tg != -1 || tb != -1 {
+				add("invalid-truecolor-valid", "colour %d (%s) is not valid but TrueColor()=%d reports Valid()=%v Hex()=%d RGB()=%d,%d,%d (want not valid, -1)", uint64(c), flagStr(c), uint64(tc), tc.Valid(), tc.Hex(), tr, tg, tb)
+			}
+			if css != "" && tcell.GetColor(css).Valid() {
+				add("invalid-css-colour", "colour %d (%s) is not valid but CSS()=%q names the colour %d", uint64(c), flagStr(c), css, uint64(tcell.GetColor(css)))
+			}
+			if rg {
+				add("invalid-isrgb", "colour %d (%s) is not valid but IsRGB() is true", uint64(c), flagStr(c))
 			}
 		} else if hx >= 0 {
 			if hx > 0xffffff || r != (hx>>16)&0xff || g != (hx>>8)&0xff || b != hx&0xff {
@@ -599,6 +680,18 @@ func colorExec(line string) h.Result {
 			return bad()
 		}
 		res.Findings = sweep(p, count, colour)
+	case "dsweep":
+		if len(f) != 4 {
+			return bad()
+		}
+		p := parsePalSpec(f[2])
+		if !p.domain {
+			return bad()
+		}
+		cs := directedColours(p, int(atoi64(f[3])))
+		res.Obs = fmt.Sprintf("SKIP swept %d directed colours x %d entries", len(cs), len(p.cols))
+		res.Tags = append(res.Tags, fmt.Sprintf("dsweep:len%s", bucket(len(p.cols))))
+		res.Findings = sweep(p, len(cs), func(k int) tcell.Color { return cs[k] })
 	case "cssref":
 		if len(f) != 4 {
 			return bad()
@@ -662,6 +755,11 @@ func sweep(p *palInfo, count int, colour func(int) tcell.Color) []h.Finding {
 		}
 	}
 	return out
+}
+
+func flagStr(c tcell.Color) string {
+	s := fmt.Sprintf("valid=%s isrgb-bit=%s special-bit=%s payload=%#x", b01(c&tcell.ColorValid != 0), b01(c&tcell.ColorIsRGB != 0), b01(c&tcell.ColorSpecial != 0), uint64(c)&0xffffffff)
+	return s
 }
 
 func bucket(n int) string {
@@ -776,6 +874,27 @@ func colorGen(g *h.Gen) {
 		V | 255, V | 256, V | 378, V | 379, V | 0xffffff, V | 0xffffffff, math.MaxUint64, math.MaxUint64 &^ V, 1 << 63, V | 1<<63, V | RGBF | 1<<40 | 0xabcdef, 0xffffff, 0x1000000} {
 		g.Emit("color conv %d", c)
 	}
+	// not-valid colours with every combination of the other flag bits over assorted payloads (hand-built values, valid
+	// colours with the Valid bit stripped, special values with stray bits)
+	pay := []uint64{0, 1, 2, 7, 8, 15, 16, 255, 256, 378, 0x123456, 0xffffff, 0x1000000, 0xffffffff}
+	for k := 0; k < 6; k++ {
+		pay = append(pay, R.U64()&0xffffff, uint64(h.Pick(R, keys))&0xffffffff)
+	}
+	for _, pl := range pay {
+		for fl := uint64(0); fl < 4; fl++ {
+			c := pl
+			if fl&1 != 0 {
+				c |= RGBF
+			}
+			if fl&2 != 0 {
+				c |= SP
+			}
+			g.Emit("color conv %d", c)
+			if R.Chance(25) {
+				g.Emit("color conv %d", c|(R.U64()&^(V|0xffffffff))) // stray high bits as well
+			}
+		}
+	}
 	for k := 0; k < g.N(3000, 60000); k++ {
 		var c uint64
 		switch R.Intn(8) {
@@ -868,6 +987,24 @@ func colorGen(g *h.Gen) {
 		for i := range cs {
 			cs[i] = randValid()
 		}
+		if R.Chance(30) && n > 1 { // members a step or two apart in RGB (closer to each other than any tolerance one may think of)
+			for k := 0; k < 1+n/4; k++ {
+				i, j := R.Intn(n), R.Intn(n)
+				if hx := cs[j].Hex(); i != j && hx >= 0 {
+					v := hx
+					for sh := uint(0); sh < 24; sh += 8 {
+						ch := int32((hx>>sh)&0xff) + int32(R.Range(-2, 2))
+						if ch < 0 {
+							ch = 0
+						} else if ch > 255 {
+							ch = 255
+						}
+						v = v&^(0xff<<sh) | ch<<sh
+					}
+					cs[i] = tcell.NewHexColor(v)
+				}
+			}
+		}
 		if R.Chance(30) && n > 1 { // duplicates / equal-distance members (a palette colour and its RGB twin)
 			for k := 0; k < 1+n/4; k++ {
 				i, j := R.Intn(n), R.Intn(n)
@@ -905,6 +1042,11 @@ func colorGen(g *h.Gen) {
 				c = c.TrueColor()
 			}
 		}
+		if R.Chance(15) && len(cols) > 0 { // a step away from a member
+			if hx := h.Pick(R, cols).Hex(); hx >= 0 {
+				c = tcell.NewHexColor(hx ^ (1 << uint(R.Intn(24)) & 0x030303))
+			}
+		}
 		g.Emit("%s", findLine(c, cols))
 	}
 	// outside the statement (model correspondence only): ColorDefault / invalid / unmapped members or colour
@@ -938,9 +1080,15 @@ func colorGen(g *h.Gen) {
 			g.Emit("color sweep %s %d %d %d", s, R.Intn(1<<24), 1<<13, 2*R.Intn(1<<20)+1)
 		}
 	}
+	// directed colours: every pair of members of the four standard palettes; nearest-neighbour pairs for the random ones
+	g.Emit("color dsweep x8 0")
+	g.Emit("color dsweep x16 0")
+	g.Emit("color dsweep x88 0")
+	g.Emit("color dsweep x256 0")
 	for k := 0; k < g.N(50, 400); k++ {
 		cols := randPal(h.Pick(R, []int{4, 16, 40, 120}))
 		g.Emit("color rsweep %s %d %d", showCols(cols), R.U64()>>1, g.N(1024, 16384))
+		g.Emit("color dsweep %s %d", showCols(cols), g.N(8, 0))
 	}
 }
 
